@@ -117,7 +117,7 @@ class LeafVisitStage(object):
     name = "visit_leaves"
 
     def __init__(self, ch):
-        self.cfg = common.draw_pyramid(ch, max_generic=3, max_toast=3)
+        self.cfg = common.draw_pyramid(ch, max_generic=3, max_toast=3, allow_deep=True)
         self.coordsys = None
         if self.cfg.kind != "generic":
             self.coordsys = (ToastCoordinateSystem.ASTRONOMICAL, ToastCoordinateSystem.PLANETARY)[ch.draw(2, kind="coordsys")]
@@ -138,6 +138,9 @@ class LeafVisitStage(object):
             p = Pyramid.new_generic(cfg.depth)
         elif cfg.kind == "toast":
             p = Pyramid.new_toast(cfg.depth, coordsys=self.coordsys)
+        elif cfg.kind == "deep":
+            accept = cfg.accept
+            p = Pyramid.new_toast_filtered(cfg.depth, lambda t: t.pos in accept, coordsys=self.coordsys)
         else:
             rejects = cfg.rejects
             p = Pyramid.new_toast_filtered(cfg.depth, lambda t: t.pos not in rejects, coordsys=self.coordsys)
